@@ -66,10 +66,12 @@ def posix_environment(
         # Escape environment variable name, unless it is one of a few special names
         if var not in ["!", "$"]:
             var = mach.escape(var)
-        # Add a space in front of the expanded environment variable to ensure
-        # values like `-E` will not get picked up as parameters by echo.  This
-        # space is then cut away again so calling tests don't notice this trick.
-        return mach.exec0("echo", linux.Raw(f'" ${{{var}}}"'))[1:-1]
+        # Print the value with printf instead of echo: the echo builtin of
+        # ash/dash interprets backslash sequences in its arguments, so a value
+        # like `a\tb` would come back with a tab.  A value like `-E` is no
+        # problem either, because it is not the first argument of printf.
+        # The trailing newline is cut away again.
+        return mach.exec0("printf", "%s\\n", linux.Raw(f'"${{{var}}}"'))[:-1]
 
 
 def shell_sanity_check(mach: M) -> None:
